@@ -315,6 +315,68 @@ theorem cutBy_flatten (ks : List Nat) (b : Bytes) : (cutBy ks b).flatten = b := 
     · simp
     · simp [ih]
 
+/-! ### tolerant decoding: either case, surrounding whitespace (CRLF, blanks) -/
+
+/-- ASCII lower-casing of the hex letters -/
+def lowerB (c : UInt8) : UInt8 := if 65 ≤ c.toNat ∧ c.toNat ≤ 70 then UInt8.ofNat (c.toNat + 32) else c
+
+theorem unhexDigit_anycase_nat : ∀ k, k < 256 → ∀ n, n < 16 → lowerB (UInt8.ofNat k) = hexDigitB n →
+    unhexDigitB (UInt8.ofNat k) = some n ∧ isWs (UInt8.ofNat k) = false := by decide +kernel
+
+theorem unhexDigit_anycase (c : UInt8) (n : Nat) (hn : n < 16) (h : lowerB c = hexDigitB n) :
+    unhexDigitB c = some n ∧ isWs c = false := by
+  have := unhexDigit_anycase_nat c.toNat c.toNat_lt n hn
+  simpa using this (by simpa using h)
+
+theorem unhexB_anycase (m : Bytes) (ds : Bytes) (h : ds.map lowerB = hexB m) :
+    unhexB ds = some m ∧ ∀ x ∈ ds, isWs x = false := by
+  induction m generalizing ds with
+  | nil =>
+    simp only [hexB, List.map_eq_nil_iff] at h; subst h; simp [unhexB]
+  | cons b t ih =>
+    match ds, h with
+    | [], h => simp [hexB] at h
+    | [_], h => simp [hexB] at h
+    | a :: c :: rest, h =>
+      simp only [hexB, List.map_cons, List.cons.injEq] at h
+      obtain ⟨h1, h2, h3⟩ := h
+      have hb1 : b.toNat / 16 < 16 := by have := b.toNat_lt; omega
+      have hb2 : b.toNat % 16 < 16 := by omega
+      obtain ⟨e1, w1⟩ := unhexDigit_anycase a _ hb1 h1
+      obtain ⟨e2, w2⟩ := unhexDigit_anycase c _ hb2 h2
+      obtain ⟨e3, w3⟩ := ih rest h3
+      refine ⟨by simp only [unhexB, e1, e2, e3, byte_split], ?_⟩
+      intro x hx
+      simp only [List.mem_cons] at hx
+      rcases hx with rfl | rfl | hx
+      · exact w1
+      · exact w2
+      · exact w3 x hx
+
+theorem dropWhile_all {α} (p : α → Bool) (l : List α) (h : ∀ x ∈ l, p x = true) : l.dropWhile p = [] := by
+  induction l with
+  | nil => rfl
+  | cons a t ih => simp [List.dropWhile, h a (by simp), ih (fun x hx => h x (by simp [hx]))]
+
+theorem dropWhile_prefix {α} (p : α → Bool) (pre l : List α) (h : ∀ x ∈ pre, p x = true) :
+    (pre ++ l).dropWhile p = l.dropWhile p := by
+  induction pre with
+  | nil => rfl
+  | cons a t ih => simp [List.dropWhile, h a (by simp), ih (fun x hx => h x (by simp [hx]))]
+
+theorem strip_padded (pre core post : Bytes) (hpre : ∀ x ∈ pre, isWs x = true) (hpost : ∀ x ∈ post, isWs x = true)
+    (hcore : ∀ x ∈ core, isWs x = false) : strip (pre ++ core ++ post) = core := by
+  unfold strip
+  rw [List.append_assoc, dropWhile_prefix _ _ _ hpre]
+  cases core with
+  | nil => simp [dropWhile_all _ _ hpost]
+  | cons c cs =>
+    have hc : isWs c = false := hcore c (by simp)
+    have h1 : ((c :: cs) ++ post).dropWhile isWs = (c :: cs) ++ post := by simp [List.dropWhile, hc]
+    rw [h1, List.reverse_append, dropWhile_prefix _ _ _ (by intro x hx; exact hpost x (by simpa using hx)),
+      dropWhile_id _ _ (by intro x hx; exact hcore x (by simp at hx; simp [hx.symm]))]
+    simp
+
 /-! ### server loop -/
 
 variable {σ : Type}
